@@ -115,6 +115,7 @@ def loop_iterates_whole_map(ctx, fn, head, map_pred):
             problems.append("iterator is %s, not an iteration over the whole content map" % short(src, 160))
     # the loop is left only when next() returns None
     exits = [(a, b) for a in body for b in cfg.succ[a] if b not in body]
+    err_exits = []
     for a, b in exits:
         info = an.switch_info(a)
         good = False
@@ -131,18 +132,36 @@ def loop_iterates_whole_map(ctx, fn, head, map_pred):
                     labs = [names.get(v) for v, tb in targets if tb == b]
                     if labs == ["None"]:
                         good = True
+                # leaving on the Err of a Result computed in the iteration (explicit error propagation)
+                labs2 = [names.get(v) for v, tb in targets if tb == b] + ([nm for v, nm in names.items() if v not in [x for x, _ in targets]] if otherwise == b else [])
+                if labs2 and set(labs2) <= {"Err"} and c.k == "call" and c.site in body:
+                    good = True
+                    err_exits.append((a, b))
         if not good:
             problems.append("loop can be left at %s other than by exhausting the iterator" % fn.blocks[a].term.sp)
+    # an explicit error exit must stay an error: no successful return behind it
+    if err_exits:
+        from kernel import feasible_reach
+        okb = set()
+        for bb0, idx0, node0 in an.defs().get(0, []):
+            rv0 = getattr(node0, "rv", None)
+            if rv0 is not None and rv0.kind == "aggregate" and rv0.j.get("variant") in ("Ok", "Some"):
+                okb.add(bb0)
+        for a, b in err_exits:
+            if okb & feasible_reach(an, b):
+                problems.append("the loop is left on an error at %s but a successful return is still reachable from there" % fn.blocks[a].term.sp)
     return an.call_expr(t, n), problems
 
 
-def check_content_stream(ctx, fn, root, via_param, record_pred, sig_mode, what):
+def check_content_stream(ctx, fn, root, via_param, record_pred, sig_mode, what, skip_header=False):
     """Verify that `fn` writes into the sink exactly
          [sig]  seq  (key  val)*
     over the record denoted by record_pred(expr) (expr -> bool for `the
     record object`).  sig_mode: 'flag' (conditional on a bool parameter),
     'never'.  Returns (ok, problems, emissions, flag_param)."""
     em = sink_emissions(ctx, fn, root, via_param)
+    if skip_header and em and em[0].kind == "header":
+        em = em[1:]
     problems = []
     flag = None
 
@@ -286,3 +305,92 @@ def is_encoding_of_self(ctx, f, an, e, buf_local=None):
     sa = strip(an.operand_expr(t.args[0], muts[0]["bb"], muts[0]["idx"]))
     return bool(c and c.name == "encode" and (c.trait or "").endswith("alloy_rlp::Encodable") and c.self_ty and c.self_ty.get("adt") == "Enr" and sa.k == "param" and sa.a[0] == 1)
 
+
+
+# ---------------------------------------------------------------- single-pass framing (length mirror)
+
+
+def check_direct_framed(ctx, fn, out_root, out_via, record_pred, sig_mode, what):
+    """`out` receives Header{list: true, payload_length: L} and then, directly,
+    [sig] seq (key raw-value)*, where L is the sum of exactly the lengths of
+    those emissions:
+        L = [sig.length()] + seq.length() + sum over the whole map of (key.length() + value.len())
+    Each emission is matched with its length term (same value, same RLP class);
+    alloy-rlp's contract `x.length() == bytes written by x.encode()` is the
+    trusted library fact.  Returns problems."""
+    import closures
+    import guards
+    from kernel import E, closure_of
+    from rules.typestate import const_int
+    an = ctx.an(fn)
+    em = sink_emissions(ctx, fn, out_root, out_via)
+    if not em or em[0].kind != "header":
+        return ["the first write is not an RLP header"]
+    h = em[0]
+    if h.cond is not None or h.loop is not None or not all(an.cfg.dominates(h.bb, e.bb) for e in em[1:]):
+        return ["the header is not written first, unconditionally"]
+    ok, problems, _, _ = check_content_stream(ctx, fn, out_root, out_via, record_pred, sig_mode, what, skip_header=True)
+    problems = list(problems)
+    hv = strip(h.value)
+    if not (hv.k == "agg" and hv.a[0].endswith("Header::Header")):
+        return problems + ["header is not built in place: %s" % short(hv, 120)]
+    lst = strip(hv.a[1].get("list"))
+    if not (lst.k == "const" and lst.a[0] == 1):
+        problems.append("header is not a list header")
+    atoms, cst = guards.linear(hv.a[1].get("payload_length"), const_int, strip)
+    if cst != 0:
+        problems.append("the header length contains the constant %d" % cst)
+    pre = [e for e in em[1:] if e.loop is None]
+    inl = [e for e in em[1:] if e.loop is not None]
+    terms = [strip(a) for a in atoms]
+    used = set()
+
+    def is_len_of(t, emission):
+        """t is the length term of one emission"""
+        if emission.kind == "rlp":
+            return t.k == "call" and t.a[0].name == "length" and (t.a[0].trait or "").endswith("alloy_rlp::Encodable") and t.a[1] and \
+                rlpclass.encoder_class(t.a[0]) == emission.cls and same_value(unmut(t.a[1][0]), unmut(emission.value))
+        if emission.kind == "raw":
+            return t.k == "call" and t.a[0].name == "len" and t.a[1] and same_value(unmut(t.a[1][0]), unmut(emission.value))
+        return False
+
+    for e in pre:
+        hit = [i for i, t in enumerate(terms) if i not in used and is_len_of(t, e)]
+        if not hit:
+            problems.append("the header length has no term for the emission %s" % e)
+        else:
+            used.add(hit[0])
+    sums = [i for i, t in enumerate(terms) if i not in used and t.k == "call" and t.a[0].name == "sum" and (t.a[0].trait or "").endswith("Iterator")]
+    if len(sums) != 1:
+        problems.append("the header length has %d summations over the pairs, expected one" % len(sums))
+    else:
+        used.add(sums[0])
+        sm = terms[sums[0]]
+        src = strip(sm.a[1][0])
+        good = False
+        if src.k == "call" and src.a[0].name == "map" and len(src.a[1]) == 2:
+            it = strip(src.a[1][0])
+            itok = it.k == "call" and it.a[0].name in ("iter", "into_iter") and it.a[1] and strip(it.a[1][0]).k == "field" and strip(it.a[1][0]).a[1] == "content" and record_pred(strip(strip(it.a[1][0]).a[0])) and \
+                ("btree_map::Iter<" in (sm.a[0].full or "") or "BTreeMap" in (it.a[0].full or ""))
+            cl = closure_of(src.a[1][1])
+            body = closures.closure_return(ctx, cl[0], cl[1], [E("closure-arg")]) if cl else None
+            if itok and body and len(body) == 1 and len(inl) == 2:
+                catoms, ccst = guards.linear(body[0], const_int, strip)
+                cterms = [strip(a) for a in catoms]
+
+                def arg_field(x, idx):
+                    x = unmut(x)
+                    for _ in range(4):
+                        if x.k == "call" and len(x.a[1]) == 1 and x.a[0].name in ("as_slice", "as_ref", "deref", "as_bytes"):
+                            x = unmut(x.a[1][0])
+                    return x.k == "field" and x.a[1] == idx and unmut(x.a[0]).k == "closure-arg"
+                k_em, v_em = inl
+                kt = [t for t in cterms if t.k == "call" and t.a[0].name == "length" and (t.a[0].trait or "").endswith("alloy_rlp::Encodable") and rlpclass.encoder_class(t.a[0]) == k_em.cls and t.a[1] and arg_field(t.a[1][0], "0")]
+                vt = [t for t in cterms if t.k == "call" and t.a[0].name == "len" and t.a[1] and arg_field(t.a[1][0], "1")]
+                good = ccst == 0 and len(cterms) == 2 and len(kt) == 1 and len(vt) == 1 and k_em.kind == "rlp" and v_em.kind == "raw"
+        if not good:
+            problems.append("the summation in the header length is not `sum over the whole map of key.length() + value.len()`: %s" % short(sm, 160))
+    extra = [short(t, 80) for i, t in enumerate(terms) if i not in used]
+    if extra:
+        problems.append("the header length has terms that correspond to no emission: %s" % extra)
+    return problems
